@@ -307,6 +307,11 @@ def gen_cli_case(rng, k):
                      ("floss", [0, 1, 2, 3, 0.5, 1.25]), ("sloss", [0, 1, 2, 3, 0.75])):
         if rng.random() < 0.45:
             costs[nm] = rng.choice(vals)
+    if rng.random() < 0.12:
+        # totals with many significant digits: large unit costs, fractions that are not dyadic (the printed minimum must
+        # still be the evaluated cost of what is written, not a rounded rendering of it)
+        nm = rng.choice(["dup", "dup", "floss", "hgt"])
+        costs[nm] = rng.choice({"dup": [1234567, "10**7+1", "7/3"], "floss": [100003, "1/3", "2/7"], "hgt": [7654321, "1/3", "10**8+7"]}[nm])
     return {"k": k, "obj": obj, "sp": sp, "omitted": omitted, "leaf_species": leaf_species, "syn": syn,
             "algo": algo, "costs": costs, "orient": rng.choice(["horizontal", "vertical"]), "mode": "inproc"}
 
@@ -934,6 +939,10 @@ def gen_pipeline_case(rng, k, algo):
               "floss": rng.randint(0, 3), "sloss": rng.randint(0, 2)}
         if algo in ("lca", "exh") or cv["spe"] + 2 * cv["sloss"] <= cv["dup"] + 2 * cv["floss"]:
             break
+    if rng.random() < 0.08:
+        cv["dup"] = rng.choice([1234567, 10000001])          # a total with more than six significant digits (stays coherent)
+        return {"k": k, "obj": obj, "sp": sp, "omitted": omitted, "leaf_species": leaf_species, "syn": syn,
+                "algo": algo, "costs": cv, "orient": rng.choice(["horizontal", "vertical"]), "mode": "inproc"}
     if rng.random() < 0.15:
         cv = {}
     elif rng.random() < 0.3:
